@@ -28,5 +28,5 @@ def run(ctx):
                   "thorough": "5000 simulated programs"}[ctx.tier]
     ctx.rule = ("programs from the TLA+ builder machine; distinct = distinct (operation, program/argument); non-trivial = program with a rest or more than one entry, any bpm other than 120, VLQ >= 128, any corruption")
     ctx.nontrivial = lambda r: r["op"] != "roundtrip" or sum(len(b["entries"]) for t in r["prog"]["tracks"] for b in t["bars"]) > 1
-    recs = ctx.execute("c17", cases)
+    recs = ctx.execute("c17", cases, orders=2)
     ctx.validate("Trace_C17", recs, driver="c17", shard=6000)
